@@ -89,3 +89,20 @@ Proof. vm_compute. split; reflexivity. Qed.
 
 Lemma key_signer_sources : key_signer_sources_ok = true.
 Proof. vm_compute. reflexivity. Qed.
+
+(* each contract flag is fed by its own environment variable; no two flags share one *)
+Lemma contract_env_vars :
+  map flag_env_of_var [bos "optionPreconfStoreAddr"; bos "optionProviderRegistryAddr"; bos "optionBidderRegistryAddr"] =
+  [Some (bos "[]string{""MEV_COMMIT_PRECONF_ADDR""}");
+   Some (bos "[]string{""MEV_COMMIT_PROVIDER_REGISTRY_ADDR""}");
+   Some (bos "[]string{""MEV_COMMIT_BIDDER_REGISTRY_ADDR""}")].
+Proof. vm_compute. reflexivity. Qed.
+
+Lemma config_env_vars_distinct :
+  match map flag_env_of_var [bos "optionSecret"; bos "optionPeerType"; bos "optionPreconfStoreAddr";
+                             bos "optionProviderRegistryAddr"; bos "optionBidderRegistryAddr";
+                             bos "optionSettlementRPCEndpoint"] with
+  | [Some a; Some b; Some c; Some d; Some e; Some f] => nodupb [a; b; c; d; e; f]
+  | _ => false
+  end = true.
+Proof. vm_compute. reflexivity. Qed.
